@@ -25,6 +25,7 @@ const (
 	fCompleted
 	fFailed
 	fMissing // metadata: awaited link missing
+	fAnyStatus // data for the awaited link with an arbitrary 32-bit status code (solver variable)
 	nForeignShapes
 )
 
@@ -61,7 +62,7 @@ func observeReq(e *Env, rq *Req, pA peer.ID) string {
 // bOwn: 0 = B has no request of ours; 1/2 = B also serves a genuine request
 // (id 1) and puts its own response before/after the foreign one in the same
 // message.
-func reqScenario(point, shape, hookMode, bOwn int, interfere bool) (string, *Env) {
+func reqScenario(point, shape, hookMode, bOwn int, interfere bool, anyStatus graphsync.ResponseStatusCode) (string, *Env) {
 	dag := kit.Chain(2)
 	local := []bool{true, false} // the second block must come from the responder
 	workers := 1
@@ -102,6 +103,9 @@ func reqScenario(point, shape, hookMode, bOwn int, interfere bool) (string, *Env
 		case fMissing:
 			items = []RespItem{{Link: 0, Present: true}, {Link: 1}}
 			st = graphsync.RequestCompletedPartial
+		case fAnyStatus:
+			items = []RespItem{{Link: 0, Present: true}, {Link: 1, Present: true, Block: true}}
+			st = anyStatus
 		}
 		foreign := Resp{ID: rq.ID, Items: items, Status: st}
 		own := Resp{ID: kit.ReqID(1), Status: graphsync.PartialResponse}
@@ -147,8 +151,12 @@ func VerifReq_CrossPeer() {
 		// change the baseline: keep them for the pure-foreign case
 		verifrt.Assume(false)
 	}
-	base, _ := reqScenario(point, shape, hook, bOwn, false)
-	with, _ := reqScenario(point, shape, hook, bOwn, true)
+	anyStatus := graphsync.ResponseStatusCode(0)
+	if shape == fAnyStatus {
+		anyStatus = graphsync.ResponseStatusCode(verifrt.I32("foreign-status"))
+	}
+	base, _ := reqScenario(point, shape, hook, bOwn, false, anyStatus)
+	with, _ := reqScenario(point, shape, hook, bOwn, true, anyStatus)
 	verifrt.Eventf("state=%d shape=%d hook=%d", point, shape, hook)
 	verifrt.Eventf("without: %s", base)
 	verifrt.Eventf("with:    %s", with)
